@@ -172,6 +172,9 @@ pub struct BrokerCfg {
     /// Offer, as a fault (cost 1), an acknowledgement of the wrong kind carrying the identifier of a
     /// request that is still waiting (PUBACK for a SUBSCRIBE, SUBACK for a publish ...).
     pub wrong_kind_acks: bool,
+    /// Offer, as a fault (cost 1), a second PUBREC - with a failure code - for a QoS 2 exchange that is
+    /// already waiting for PUBCOMP.
+    pub dup_pubrec_fail: bool,
 }
 
 impl Default for BrokerCfg {
@@ -198,6 +201,7 @@ impl Default for BrokerCfg {
             overrun: false,
             pubcomp_last: false,
             wrong_kind_acks: false,
+            dup_pubrec_fail: false,
         }
     }
 }
